@@ -104,3 +104,23 @@ Proof.
   pose proof (exec_nodes w x w' o k bk _ fp HW H Hne Hk Hr) as Hs.
   exists fp, (b_root b). split; [assumption|]. split; [|exact Hs]. eapply rep_frame; [exact Hr|exact Hs].
 Qed.
+
+(* who owns what a tree reaches: every node in the footprint of tree k was created by k itself or
+   by an OLDER tree that is frozen - a mutable tree never shares its own nodes with anybody *)
+Theorem sharing_discipline_proof xs k bk :
+  let w := execs (mkSW [] []) xs in
+  nth_error (sw_trees w) k = Some bk ->
+  exists fp tr, rep (sw_store w) (sb_root bk) tr fp /\
+    forall y, In y fp -> exists n, nth_error (sw_store w) y = Some n /\
+      (s_cr n = k \/ ((s_cr n < k)%nat /\ exists bo, nth_error (sw_trees w) (s_cr n) = Some bo /\ sb_immut bo = true)).
+Proof.
+  intros w Hk. destruct (store_refines_proof xs) as (HW & Hlen & Hrel). fold w in HW, Hlen, Hrel.
+  destruct (nth_error (vexecs [] xs) k) as [b|] eqn:Eb.
+  2:{ apply nth_error_None in Eb. assert (k < length (sw_trees w))%nat by (apply nth_error_Some; congruence). lia. }
+  destruct (Hrel k bk b Hk Eb) as ((_ & _ & _ & _ & fp & Hr) & _).
+  exists fp, (b_root b). split; [assumption|]. intros y Hy.
+  pose proof HW as (Hok & Htr). destruct (Htr k bk Hk) as (_ & Hv).
+  destruct (rep_vis (ancw (frw (sw_trees w))) (ancw_trans _) _ Hok _ _ _ Hr k Hv y Hy) as (n & Hn & Ha).
+  exists n. split; [assumption|]. destruct Ha as [Heq|(Hlt & Hf)]; [now left|right].
+  split; [assumption|]. unfold frw in Hf. destruct (nth_error (sw_trees w) (s_cr n)) as [bo|]; [|discriminate]. eauto.
+Qed.
